@@ -189,7 +189,8 @@ def run_task(task):
                 out["paths"].append({"outcome": r.outcome, "detail": r.detail, "trace": [f"{t}={c}" for t, c in r.trace][:40]})
             for vc in r.vcs:
                 props = vc.meta.get("props") or (ct.serves if ct else [prop])
-                if prop not in props and vc.meta.get("kind") in ("ensures", "exc-ensures"):
+                if prop not in props and vc.meta.get("kind") in ("ensures", "exc-ensures") and not (
+                        ct is not None and prop not in ct.serves and ct.fresh_result is not None):  # callers assume the ensures of such callees
                     continue
                 vc_index += 1
                 if ct is not None and getattr(ct, "shard_by", "path") == "vc" and vc_index % nshards != shard:
@@ -388,6 +389,20 @@ def check_property(prop, tier, seed):
     t0 = time.time()
     w = load_world()
     contracts = [ct for ct in w.contracts.values() if prop in ct.serves]
+    # modularity: a caller is checked against the contracts of its callees, so the check of a property also discharges
+    # the contracts it relies on at call sites (transitively): a change inside a callee that breaks the callee's contract
+    # is then reported by this check too, not only by the check of the property the callee's contract was written for
+    seen = {ct.key for ct in contracts}
+    work = list(contracts)
+    while work:
+        ct = work.pop()
+        for callee, pol in (ct.policy or {}).items():
+            cc = w.contracts.get(callee) if pol == "contract" else None
+            if cc is not None and cc.key not in seen and cc.scenarios:
+                seen.add(cc.key)
+                cc.dependency_of = getattr(cc, "dependency_of", set()) | {prop}
+                contracts.append(cc)
+                work.append(cc)
     timeout_ms = 10000 if tier == "quick" else 60000
     tasks = []
     for ct in contracts:
@@ -418,6 +433,8 @@ def check_property(prop, tier, seed):
                                        "obligations": 0, "exits": {}})
         if res.get("shard", 0) == 0:
             f["scenarios"] += 1
+        if not key.startswith("lemma:") and prop not in w.contracts[key].serves:
+            f["role"] = "callee contract relied on at call sites of the functions above (discharged here as well)"
         if res["error"]:
             internal.append(f"{key}[{res['scenario']}]: {res['error'][-800:]}")
             continue
@@ -609,7 +626,7 @@ def check_property(prop, tier, seed):
         "rule": bounded.get("rule", ""),
     }
     ev = {"property_id": prop, "tier": tier, "seed": seed, "level": level, "coverage": coverage,
-          "assumptions": ASSUMPTIONS_COMMON + PROP_ASSUMPTIONS.get(prop, []), "wall_s": round(wall, 2), "violations": vio_count}
+          "assumptions": ASSUMPTIONS_COMMON + PROP_ASSUMPTIONS.get(prop, []) + callee_assumptions(w, contracts, prop), "wall_s": round(wall, 2), "violations": vio_count}
     evdir = EVIDENCE_DIR or os.path.join(VERIF, "evidence")
     os.makedirs(evdir, exist_ok=True)
     with open(os.path.join(evdir, f"{prop}.json"), "w") as fh:
@@ -635,6 +652,25 @@ def check_property(prop, tier, seed):
         print("INTERNAL: zero obligations generated")
         return 3
     return 0
+
+
+def callee_assumptions(w, contracts, prop):
+    """contracts of callees that this run relies on at call sites without discharging them itself"""
+    out = set()
+    for ct in contracts:
+        for callee, pol in (ct.policy or {}).items():
+            short = callee.split("robotools.")[-1]
+            if pol == "contract":
+                cc = w.contracts.get(callee)
+                if cc is None:
+                    out.add(f"call sites of {short} use a contract that is not registered (unsupported at run time)")
+                elif prop not in cc.serves and not cc.scenarios:
+                    out.add(f"call sites of {short} are checked against its contract, which is discharged by the check(s) of {', '.join(cc.serves)} (assumed here)")
+                elif not cc.scenarios:
+                    out.add(f"call sites of {short} use an assumed summary (no scenario of its own is verified)")
+            elif callable(pol):
+                out.add(f"call sites of {short} use an opaque call-site summary (its own contract is verified separately, for the shapes its scenarios list)")
+    return sorted(out)
 
 
 def seeded_selftest(prop):
